@@ -332,8 +332,11 @@ def gen(seed, run, tier='quick'):
             elif rng.random() < 0.07:
                 # a feed of rate specs that, while it is being read, passes
                 # a correction for another period to the same converter
-                ops[-1].append({'v': _spell_validity(rng, convs[ci]['kind'],
-                                                     some_date()),
+                ops[-1].append({'v': _spell_validity(
+                                    rng, convs[ci]['kind']
+                                    if rng.random() < 0.7 else
+                                    rng.choice(['none', 'year', 'month',
+                                                'day']), some_date()),
                                 'specs': rate_specs(ci),
                                 'at': rng.randrange(4)})
         elif k == 'bad_validity':
@@ -384,6 +387,10 @@ def gen(seed, run, tier='quick'):
                 ops.append(['call', ci, a, b, d,
                             '0' if rng.random() < 0.12 else
                             f"{rng.randrange(1, 10 ** 7)}/100"])
+            if d is not None and rng.random() < 0.15:
+                # the effective date given as datetime (a datetime is a
+                # date: the day it lies in)
+                ops[-1].append('dt')
         elif k == 'clock':
             ops.append(['clock', some_date().isoformat(),
                         rng.randrange(8)])
@@ -815,6 +822,10 @@ def execute(h):
         ci = op[1] % len(convs)
         a, b = op[2] % n_cur, op[3] % n_cur
         d = None if op[4] is None else dt.date.fromisoformat(op[4])
+        d_lib = d
+        if d is not None and op[-1] == 'dt':
+            d_lib = dt.datetime.combine(d, dt.time(13, 30))
+            bump(probes, 'effective_date_given_as_datetime')
         conv = convs[ci]
         clock = cclk[ci]
         clock.reset_trace()
@@ -838,11 +849,11 @@ def execute(h):
                         op=op[0], conv=ci, observed=type(e).__name__)
         if op[0] == 'get':
             o = observe(lambda: canon_rate(
-                conv.get_rate(curs[a], curs[b], d)))
+                conv.get_rate(curs[a], curs[b], d_lib)))
         else:
             money = Money(Fraction(op[5]), curs[a])
             o = observe(lambda: ('amount', _num(
-                conv(money, curs[b], d))), any_exc=a != b)
+                conv(money, curs[b], d_lib))), any_exc=a != b)
         if clock.armed:
             bump(faults, 'clock_tick_during_lookup' if not clock.script
                  else 'clock_tick_armed_but_not_reached')
